@@ -88,6 +88,11 @@ func oneHistory(c *hx.Ctx, k int, r *rand.Rand) bool {
 	}
 	model := map[agg.Key]*agg.Flow{}
 	prev := map[agg.Key]map[string]interface{}{}
+	// the companion: a seventh flow (one reporting stream) whose records only ever travel in ONE MESSAGE with a
+	// record of another flow, before or after it - messages carry records of several 5-tuples
+	compKey := agg.Keys[6]
+	compStart, compEnd := uint32(900), uint32(0)
+	var compTot [agg.NC]uint64
 	var word []string
 	aggregated := false
 	fail := func(class, why string) bool {
@@ -98,7 +103,7 @@ func oneHistory(c *hx.Ctx, k int, r *rand.Rand) bool {
 	for op := 0; op < nops; op++ {
 		g := gens[r.IntN(len(gens))]
 		x := r.IntN(20)
-		var touched *agg.Key
+		var touched, touched2 *agg.Key
 		resetOp := false
 		switch {
 		case x < 15: // record
@@ -159,8 +164,42 @@ func oneHistory(c *hx.Ctx, k int, r *rand.Rand) bool {
 				rec.Str["sourcePodName"], rec.Str["destinationPodName"] = "pod-s", "pod-d"
 			}
 			word = append(word, fmt.Sprintf("rec(%s:%d,%c,end=%d,tot=%v,delta=%v)", g.cfg.key.Src, g.cfg.key.DPort, node, end, rec.Total, rec.Delta))
-			if err := ap.AggregateMsgByFlowKey(agg.Message(rec)); err != nil {
+			msgRecs := []agg.Rec{rec}
+			var comp *agg.Rec
+			if r.IntN(3) == 0 {
+				if compEnd == 0 {
+					compEnd = compStart
+				}
+				compEnd += 1 + uint32(r.IntN(50))
+				cr := agg.Rec{Key: compKey, Node: 'B', FlowType: 1, Start: compStart, End: compEnd, EndReason: 2, TCPState: "ESTABLISHED",
+					Str: map[string]string{"sourcePodName": "pod-s", "destinationPodName": "pod-d"}}
+				for i := 0; i < agg.NC; i++ {
+					compTot[i] += uint64(r.IntN(100000))
+					cr.Total[i] = compTot[i]
+					cr.Delta[i] = deltaPool[r.IntN(len(deltaPool))]
+				}
+				comp = &cr
+				if r.IntN(2) == 0 {
+					msgRecs = []agg.Rec{cr, rec}
+				} else {
+					msgRecs = append(msgRecs, cr)
+				}
+				word = append(word, fmt.Sprintf("  (one message of %d records, with rec(companion %s:%d,end=%d,tot=%v,delta=%v), companion first: %v)", len(msgRecs), compKey.Src, compKey.DPort, cr.End, cr.Total, cr.Delta, msgRecs[0].Key == compKey))
+			}
+			if err := ap.AggregateMsgByFlowKey(agg.Message(msgRecs...)); err != nil {
 				return fail("aggregate-error", err.Error())
+			}
+			if comp != nil {
+				if f, ok := model[compKey]; !ok {
+					f = agg.NewFlow(compKey, false)
+					model[compKey] = f
+					f.Apply(*comp, true)
+				} else {
+					f.Apply(*comp, false)
+				}
+				ck := compKey
+				touched2 = &ck
+				c.Add("messages_with_records_of_two_flows", 1)
 			}
 			st.lastEnd, st.total = end, rec.Total
 			if !g.cfg.corr {
@@ -257,6 +296,7 @@ func oneHistory(c *hx.Ctx, k int, r *rand.Rand) bool {
 			}
 			model = map[agg.Key]*agg.Flow{}
 			prev = map[agg.Key]map[string]interface{}{}
+			compStart, compEnd, compTot = compStart+5000, 0, [agg.NC]uint64{}
 			for _, gg := range gens {
 				gg.node = [2]stream{}
 				gg.maxEnd, gg.maxTot = 0, [agg.NC]uint64{}
@@ -280,7 +320,7 @@ func oneHistory(c *hx.Ctx, k int, r *rand.Rand) bool {
 				return fail("one-record-per-flow", fmt.Sprintf("GetRecords(%v) returned %d records", fk, len(recs)))
 			}
 			m := recs[0]
-			if touched != nil && key == *touched {
+			if (touched != nil && key == *touched) || (touched2 != nil && key == *touched2) {
 				if class, why := f.Check(m); class != "" {
 					fam := "skewed"
 					if f.Coherent {
